@@ -84,7 +84,86 @@ def build(case):
     return R.build(case["recipe"])
 
 
+# integers that have an equal float, small and beyond 2**53 (exactly representable): "an integer accepted by a number
+# schema comes back as the equal float" - as a float, not merely as something equal to it
+EXACT_INTS = [0, 1, -7, 2 ** 31, 2 ** 53, -(2 ** 53), 2 ** 60, -(2 ** 63), 10 ** 18, 10 ** 22, 3 * 2 ** 70]
+
+
+@st.composite
+def number_position_cases(draw):
+    where = draw(st.sampled_from(["root", "items", "property", "additional", "tuple", "anyOf"]))
+    num = {"type": "number"}
+    if draw(st.integers(0, 3)) == 0:
+        num = {"type": "number", "minimum": -(2 ** 80)}
+    ints = draw(st.lists(st.sampled_from(EXACT_INTS), min_size=1, max_size=3))
+    if where == "root":
+        schema, values, paths = num, ints, [[]]
+    elif where == "items":
+        schema, values, paths = {"type": "array", "items": num}, [ints, ints[:1]], [["*"]]
+    elif where == "property":
+        schema = {"type": "object", "title": "N", "properties": {"x": num, "class": num}}
+        values, paths = [{"x": ints[0], "class": ints[-1]}, {"x": ints[0]}], [["x"], ["class"]]
+    elif where == "additional":
+        schema = {"type": "object", "title": "N", "additionalProperties": num}
+        values, paths = [{"k": ints[0], "l": ints[-1]}], [["k"], ["l"]]
+    elif where == "tuple":
+        schema = {"type": "array", "items": [{"type": "string"}, num], "additionalItems": num}
+        values, paths = [["s"] + ints, ["s", ints[0]]], [["1+"]]
+    else:
+        schema, values, paths = {"anyOf": [{"type": "string"}, num]}, ints + ["s"], [[]]
+    return {"mode": "number-positions", "schema": schema, "values": values, "paths": paths,
+            "pipeline": draw(st.sampled_from(observe.PIPELINES))}
+
+
+def number_position_predicate(case, stats):
+    parsed = observe.safe_parse(case["schema"], case.get("pipeline"))
+    if parsed[0] != "ok":
+        stats.case(canon(case), False, ["parse-refused"])
+        return [{"sub": "parse", "kind": "parse-refused:" + str(parsed[1])}]
+    element = parsed[1]
+    fails = []
+    for value in case["values"]:
+        got = observe.verdict(element, value)
+        stats.case(canon([case["schema"], value]), True, ["mode:number-positions", "verdict:" + got[0]],
+                   sample={"schema": case["schema"], "value": value})
+        if got[0] != "ok":
+            if not isinstance(value, str):
+                fails.append({"sub": "accept", "kind": "number-schema-rejects-integer", "value": value})
+            continue
+        result = got[1]
+        for path in case["paths"]:
+            if path == []:
+                pairs = [(value, result)]
+            elif path == ["*"]:
+                pairs = list(zip(value, list(result)))
+            elif path == ["1+"]:
+                pairs = list(zip(value[1:], list(result)[1:]))
+            else:
+                key = path[0]
+                if not isinstance(value, dict) or key not in value:
+                    continue
+                by_source, _ = declared_names(element)
+                names = by_source.get(key, {key})
+                out = None
+                for n in names:
+                    try:
+                        out = getattr(result, n) if hasattr(result, n) and not isinstance(result, dict) else result[n]
+                        break
+                    except (KeyError, AttributeError, TypeError):
+                        continue
+                pairs = [(value[key], out)]
+            for given, back in pairs:
+                if isinstance(given, int) and not isinstance(given, bool):
+                    if type(back) is not float or back != given:
+                        fails.append({"sub": "number", "kind": "integer-under-number-schema-not-returned-as-the-equal-float",
+                                      "given": given, "got": repr(back)[:60], "got_type": type(back).__name__,
+                                      "path": path})
+    return fails
+
+
 def predicate(case, stats):
+    if case.get("mode") == "number-positions":
+        return number_position_predicate(case, stats)
     element = build(case)
     if element is None:
         stats.case(canon(case), False, ["parse-refused"])
@@ -121,11 +200,11 @@ ATHERIS_RUNS = 8000  # per campaign; shards 0-1 of the thorough tier run one eac
 
 
 def atheris_strategy():
-    return cases()
+    return st.one_of(cases(), cases(), cases(), cases(), cases(), number_position_cases())
 
 
 def run_shard(ctx, stats):
-    failure = runner.hyp_run(ctx, stats, cases(), predicate, BUDGET[ctx.tier])
+    failure = runner.hyp_run(ctx, stats, atheris_strategy(), predicate, BUDGET[ctx.tier])
     if failure or ctx.quick or ctx.shard >= 2:
         return failure
     return runner.atheris_campaign(ctx, stats, sys.modules[__name__], ATHERIS_RUNS)
